@@ -67,6 +67,10 @@ def run(v, tier):
     nst = 250 if quick else 1500
     st_idx = set(rng.sample(range(len(fs)), min(nst, len(fs))))
     reqs = [{'cmd': 'taut', 'pat': f, 'stages': i in st_idx, 'trace': i in tr_idx, 'budget': 60 if quick else 150} for i, f in enumerate(fs)]
+    smallf = [f for f in fs if len(tkey(f)) < 700]
+    for q in reqs:          # history: a fifth of the formulas are decided on a Tautology object that decided two others before
+        if rng.random() < 0.2 and not q['trace']:
+            q['warm'] = [rng.choice(smallf), rng.choice(smallf)]
     res = lem.run_applications(reqs)
     cases, traces = [], []
     exhausted = 0
@@ -93,7 +97,11 @@ def run(v, tier):
         cls = rng.sample(cls, 1500)
     cls += [[rng.choice(clause_pool) for _ in range(rng.randrange(3, 6))] for _ in range(500 if quick else 8000)]
     cls += [[], [[-3, -1], [-1], [1]], [[2], [-1, 2], [1, -2], [-1]], [[-2, -1], [-2], [2]]]
-    rres = lem.run_applications([{'cmd': 'resolve', 'clauses': c} for c in cls])
+    rreqs = [{'cmd': 'resolve', 'clauses': c} for c in cls]
+    for q in rreqs:
+        if rng.random() < 0.2:
+            q['warm'] = [rng.choice(cls), rng.choice(cls)]
+    rres = lem.run_applications(rreqs)
     loops = []
     for c, r in zip(cls, rres):
         if r.get('loop') and r['out'] == 'ok' and len(r['loop']['calls']) < 400:
